@@ -661,6 +661,26 @@ def pool_for(ty):
     return TYPE_POOL.get(ty)
 
 
+def byte_text_cases():
+    """string operators on texts that are not well-formed UTF-8: multi-byte characters cut by the byte-wise `select`, bytes produced by
+    toString, lone lead and continuation bytes - every one must come back (a value or a diagnostic), none may throw out of the VM"""
+    u = lambda t: t.encode("utf-8").decode("latin-1")          # the harness receives latin-1 encoded text: this sends the UTF-8 bytes
+    texts = ['("a%s" select [0,2])' % u("\u00e4"), '("%s" select [0,1])' % u("\u20ac"), '("%s" select [0,2])' % u("\u20ac"),
+             '("%s" select [1,1])' % u("\u20ac"), '("x%s" select [0,2])' % u("\U0001F600"), '("x%s" select [0,4])' % u("\U0001F600"),
+             "(toString [228])", "(toString [195])", "(toString [-30])", "(toString [226,130])", "(toString [240,159,152])",
+             "(toString [97,255])", "(toString [128])", "(toString [191,191])", '"%s"' % u("a\u00e4\u20ac")]
+    ops_u = ["toArray", "count", "toLower", "toUpper", "str", "parseNumber", "reverse", "text"]
+    ops_b = [("find", '"a"', "STRING"), ("splitString", '"a"', "STRING"), ("select", "[0,1]", "ARRAY"), ("select", "[1]", "ARRAY"),
+             ("in", '"ab"', "STRING"), ("+", '"z"', "STRING"), ("isEqualTo", '"a"', "STRING"), ("==", '"a"', "STRING")]
+    out = []
+    for t in texts:
+        for o in ops_u:
+            out.append(("U", o.lower(), "-", "STRING", "%s %s" % (o, t), ["dispatch_u", o.lower(), "STRING"]))
+        for o, rhs, ty in ops_b:
+            out.append(("B", o.lower(), "STRING", ty, "%s %s %s" % (t, o, rhs), ["dispatch_b", o.lower(), "STRING", ty]))
+    return out
+
+
 def sweep_cases(rng, registry, per_sig, only=None):
     """-> list of (kind, name, left type, right type, sqf, model line fields); unreachable = signatures without pool"""
     nu, un, bi = registry
@@ -784,7 +804,7 @@ def main(replay=None):
             keep = [x for x in sw if "CONFIG" in (x[2], x[3])]
             rest = [x for x in sw if "CONFIG" not in (x[2], x[3])]
             sw = keep + rng.sample(rest, min(len(rest), 600))
-        sw = corpus_sweep + sw
+        sw = corpus_sweep + byte_text_cases() + sw
     else:
         sw, unreachable, excluded = sweep, [], []
     if sw:
